@@ -63,7 +63,7 @@ func RunOne(p Profile, verifSeed uint64, i int, opt Options) *RunResult {
 	c := g.c
 	res := &RunResult{RunIndex: i, RunSeed: seed, Config: c.rc, HealAt: -1}
 	g.RunChaos()
-	if c.viol == nil {
+	if c.viol == nil && c.ss == nil {
 		if c.vg != nil {
 			res.HealAt = len(c.trace)
 			if !RunFollowerClose(c) && c.viol == nil && os.Getenv("VERIF_CLOSEDEBUG") != "" {
